@@ -4,11 +4,4 @@ NOTES = ("Every check: go2coq regenerates coq/gen from /repo, make rebuilds the 
          "from /repo's working tree, cases are evaluated inside Coq (model vs implementation, oracle vs implementation). "
          "See DESIGN.md.")
 NOT_YET = {}
-CLAIMS = {
- "C20": {
-  "text": "Per-arity theorems (N=2..20) proved by the Coq kernel about definitions regenerated from internal/pipe/pipe.go on every run: PipeN f1..fN a = fN(..(f1 a)) for all types, functions and arguments, and the body's call tree calls each parameter exactly once in supply order. The generated definitions are additionally run against the real code on non-commuting function families.",
-  "design_ref": "DESIGN.md 3/C20",
-  "note": "Trusted: Coq kernel + vm_compute, tools/go2coq (AST -> Gallina), Go's evaluation order for nested calls as modelled by CallTree.calls; user functions total and pure.",
-  "technique": "Coq proof over translator-regenerated definitions + differential run of model vs code",
- },
-}
+# per-property claims live in tools/runner/props/cXX.py as CLAIM = {text, design_ref, note, technique}
